@@ -48,39 +48,39 @@ include hθ hn ht
 
 set_option maxHeartbeats 2000000 in
 theorem r_block_00 : RP b w θ s c 0 0 = (Galilei.calculate_r (vneg b) (vneg w)) 0 0 := by
-  simp only [RP, Galilei.calculate_r, memoM_eq, sqNorm3_neg, ht.h3, ht.h4, ht.h5, ht.h6]
+  simp only [RP, Galilei.calculate_r, memoM_eq, Lin.mmul_msmul_get, sqNorm3_neg, ht.h3, ht.h4, ht.h5, ht.h6]
   entryR
 set_option maxHeartbeats 2000000 in
 theorem r_block_01 : RP b w θ s c 0 1 = (Galilei.calculate_r (vneg b) (vneg w)) 0 1 := by
-  simp only [RP, Galilei.calculate_r, memoM_eq, sqNorm3_neg, ht.h3, ht.h4, ht.h5, ht.h6]
+  simp only [RP, Galilei.calculate_r, memoM_eq, Lin.mmul_msmul_get, sqNorm3_neg, ht.h3, ht.h4, ht.h5, ht.h6]
   entryR
 set_option maxHeartbeats 2000000 in
 theorem r_block_02 : RP b w θ s c 0 2 = (Galilei.calculate_r (vneg b) (vneg w)) 0 2 := by
-  simp only [RP, Galilei.calculate_r, memoM_eq, sqNorm3_neg, ht.h3, ht.h4, ht.h5, ht.h6]
+  simp only [RP, Galilei.calculate_r, memoM_eq, Lin.mmul_msmul_get, sqNorm3_neg, ht.h3, ht.h4, ht.h5, ht.h6]
   entryR
 set_option maxHeartbeats 2000000 in
 theorem r_block_10 : RP b w θ s c 1 0 = (Galilei.calculate_r (vneg b) (vneg w)) 1 0 := by
-  simp only [RP, Galilei.calculate_r, memoM_eq, sqNorm3_neg, ht.h3, ht.h4, ht.h5, ht.h6]
+  simp only [RP, Galilei.calculate_r, memoM_eq, Lin.mmul_msmul_get, sqNorm3_neg, ht.h3, ht.h4, ht.h5, ht.h6]
   entryR
 set_option maxHeartbeats 2000000 in
 theorem r_block_11 : RP b w θ s c 1 1 = (Galilei.calculate_r (vneg b) (vneg w)) 1 1 := by
-  simp only [RP, Galilei.calculate_r, memoM_eq, sqNorm3_neg, ht.h3, ht.h4, ht.h5, ht.h6]
+  simp only [RP, Galilei.calculate_r, memoM_eq, Lin.mmul_msmul_get, sqNorm3_neg, ht.h3, ht.h4, ht.h5, ht.h6]
   entryR
 set_option maxHeartbeats 2000000 in
 theorem r_block_12 : RP b w θ s c 1 2 = (Galilei.calculate_r (vneg b) (vneg w)) 1 2 := by
-  simp only [RP, Galilei.calculate_r, memoM_eq, sqNorm3_neg, ht.h3, ht.h4, ht.h5, ht.h6]
+  simp only [RP, Galilei.calculate_r, memoM_eq, Lin.mmul_msmul_get, sqNorm3_neg, ht.h3, ht.h4, ht.h5, ht.h6]
   entryR
 set_option maxHeartbeats 2000000 in
 theorem r_block_20 : RP b w θ s c 2 0 = (Galilei.calculate_r (vneg b) (vneg w)) 2 0 := by
-  simp only [RP, Galilei.calculate_r, memoM_eq, sqNorm3_neg, ht.h3, ht.h4, ht.h5, ht.h6]
+  simp only [RP, Galilei.calculate_r, memoM_eq, Lin.mmul_msmul_get, sqNorm3_neg, ht.h3, ht.h4, ht.h5, ht.h6]
   entryR
 set_option maxHeartbeats 2000000 in
 theorem r_block_21 : RP b w θ s c 2 1 = (Galilei.calculate_r (vneg b) (vneg w)) 2 1 := by
-  simp only [RP, Galilei.calculate_r, memoM_eq, sqNorm3_neg, ht.h3, ht.h4, ht.h5, ht.h6]
+  simp only [RP, Galilei.calculate_r, memoM_eq, Lin.mmul_msmul_get, sqNorm3_neg, ht.h3, ht.h4, ht.h5, ht.h6]
   entryR
 set_option maxHeartbeats 2000000 in
 theorem r_block_22 : RP b w θ s c 2 2 = (Galilei.calculate_r (vneg b) (vneg w)) 2 2 := by
-  simp only [RP, Galilei.calculate_r, memoM_eq, sqNorm3_neg, ht.h3, ht.h4, ht.h5, ht.h6]
+  simp only [RP, Galilei.calculate_r, memoM_eq, Lin.mmul_msmul_get, sqNorm3_neg, ht.h3, ht.h4, ht.h5, ht.h6]
   entryR
 
 /-- **`calculate_r(−b, −ω)` is the `b`-part of the `(q, ω)` block of the summed series** -/
